@@ -135,6 +135,11 @@ func changeField(r *wm.Rec, i int, spec wm.FieldSpec) bool {
 			f.L[0] = flip(f.L[0], 255)
 		}
 	case wm.Bitmap:
+		if bitmapReplace && len(f.T) > 1 && len(f.T)%2 == 0 {
+			// the same types without the last one (one bitmap is a proper prefix of the other)
+			f.T = append([]uint16{}, f.T[:len(f.T)-1]...)
+			return true
+		}
 		if bitmapReplace && len(f.T) > 0 {
 			// same number of types, one of them different
 			k := len(f.T) / 2
